@@ -130,6 +130,9 @@ def build_box(Staircase, rng, left, right):
     ints = all(float(x).is_integer() and abs(x) < 2 ** 40 for x in left + right)
     mode = rng.choice((["float-array", "list", "tuple-ish", "int-array", "int-list"] if ints else ["float-array", "list"])
                       + ["steps-kw", "steps-kw", "leaf-steps-kw"])
+    if ints and min(left) >= 0 and rng.random() < 0.3:      # unsigned-integer dtype bounds
+        dt = rng.choice([np.uint16, np.uint32, np.uint64]) if max(right) < 60000 else np.uint64
+        return "uint-array", Staircase(left=np.array([int(x) for x in left], dtype=dt), right=np.array([int(x) for x in right], dtype=dt))
     if mode == "steps-kw":            # a non-default `steps=` keyword: the bounds stay 200 long, the grid must too
         return mode, Staircase(left=np.array(left), right=np.array(right), steps=rng.choice([10, 50, 100, 199, 201, 400]))
     if mode == "leaf-steps-kw":
@@ -307,7 +310,7 @@ def gen_queries(rng, Gf, left, right, tier_scale):
           rng.random(), rng.random(), rng.uniform(0, 0.001), rng.uniform(0.999, 1)]
     for a in rng.sample(lv, 4):
         Q.append(("cut", a))
-    Q.append(("cut", rng.choice([0, 1, np.int64(0), np.int64(1), True])))          # levels given as integers
+    Q.append(("cut", rng.choice([0, 1, np.int64(0), np.int64(1), True, np.uint8(1), np.uint64(0)])))   # levels given as integers
     Q.append(("cuts", rng.choice([[0, 1], [1, 0, 1], [0, 0.5, 1]])))
     # level arrays whose length is exactly the native step count (and one off): random, constant, unsorted
     m = rng.choice([N, N, N - 1, N + 1])
@@ -405,6 +408,20 @@ def run(ctx: core.Check):
     for bi, (kind, left, right) in enumerate(boxes):
         for op, arg in gen_queries(rng, Gf, left, right, 1):
             cases.append((bi, op, arg))
+    # arrays longer than typical chunk sizes (1024, 4096) and not a multiple of them, for alpha_cut, cdf, discretise
+    LONG = [1025, 1500, 2500, 4097, 5000]
+    for j in range(ctx.scale(5, 40)):
+        bi = (j * 7 + 3) % len(boxes)
+        kind, left, right = boxes[bi]
+        L = LONG[j % len(LONG)]
+        lv = [rng.random() if rng.random() < 0.9 else rng.choice([0.0, 1.0, rng.choice(Gf)]) for _ in range(L)]
+        cases.append((bi, "cuts", lv))
+        L2 = LONG[(j + 2) % len(LONG)]
+        span = (right[-1] - left[0]) or 1.0
+        xs = [rng.choice(left + right) if rng.random() < 0.3 else rng.uniform(left[0] - 0.1 * span, right[-1] + 0.1 * span) for _ in range(L2)]
+        cases.append((bi, "cdfs", [float(x) for x in xs]))
+        if j % 2 == 0:
+            cases.append((bi, "disc", LONG[(j + 1) % len(LONG)]))
     # always present: the witnesses of the recorded findings
     cases.append((0, "cond", 2))
     reqs = [wire(op, boxes[bi][1], boxes[bi][2], arg, Params) for bi, op, arg in cases]
@@ -578,6 +595,39 @@ def run(ctx: core.Check):
     if last_bi is not None:
         box_unchanged(last_bi)
     reverify("end of run")
+    # ---------------- sample(n): Latin-hypercube alpha-cuts; n beyond the chunk sizes. Every returned interval must be a
+    # step of the box, and step k must be hit by about n * (width of the level region of k) of the n strata.
+    sl = [float(3 * i) for i in range(N)]
+    sr = [x + 1.0 for x in sl]
+    try:
+        Ps = Staircase(left=np.array(sl), right=np.array(sr))
+        mids_ = [(Gf[i] + Gf[i + 1]) / 2 for i in range(N - 1)]
+        edges = [0.0] + mids_ + [1.0]
+        for n_s in [7, 200, 1024] + LONG[: ctx.scale(3, 5)]:
+            ctx.count(("sample", n_s), True, "sample")
+            r = Ps.sample(n_s)
+            lo_, hi_ = [float(x) for x in np.atleast_1d(r.lo)], [float(x) for x in np.atleast_1d(r.hi)]
+            bad = None
+            if len(lo_) != n_s:
+                bad = f"returns {len(lo_)} intervals"
+            else:
+                cnt = [0] * N
+                for a_, b_ in zip(lo_, hi_):
+                    k_ = int(a_ // 3)
+                    if not (0 <= k_ < N and a_ == sl[k_] and b_ == sr[k_]):
+                        bad = f"returns [{a_},{b_}] which is not a step of the p-box"
+                        break
+                    cnt[k_] += 1
+                if bad is None:
+                    for k_ in range(N):
+                        w_ = edges[k_ + 1] - edges[k_]
+                        if not (n_s * w_ - 2.001 <= cnt[k_] <= n_s * w_ + 2.001):
+                            bad = f"step {k_} (level region of width {w_:.5f}) receives {cnt[k_]} of the {n_s} Latin-hypercube strata"
+                            break
+            if bad:
+                ctx.fail(feats("sample", "integer", "sample-not-alpha-cuts", n=n_s), {"op": "sample", "n": n_s, "left": sl, "right": sr}, f"sample({n_s}) {bad}")
+    except BaseException as e:  # noqa
+        ctx.fail(feats("sample", "integer", "raises:" + err_kind(e)), {"op": "sample"}, f"sample(n) raises {type(e).__name__}: {str(e)[:80]}")
     # ---------------- prediction intervals: relations between the answers for one box
     for bi, d in pis.items():
         kind, left, right = boxes[bi]
